@@ -680,3 +680,32 @@ Proof.
   intro cap. exists (flood cap), 1%N, (Parsed (repeat 0%N 10 ++ [255; 255; 1; 2; 3; 4]%N)).
   apply v0_forgotten_nil_flood.
 Qed.
+
+(* ------------------------------------------------------------------ carrier END events (Model/ServerCarrier.v) *)
+
+Lemma conns_h_strip : forall acc hevs r sess,
+  conns_h acc r sess hevs = conns acc r sess (strip_ends hevs).
+Proof.
+  intros acc hevs. induction hevs as [|h t IH]; intros r sess; [reflexivity|].
+  destruct h as [[cid p|cid|k]|k]; cbn [conns_h strip_ends conns].
+  - apply IH.
+  - f_equal. apply IH.
+  - destruct (nth_error sess k); [f_equal|]; apply IH.
+  - apply IH.
+Qed.
+
+Lemma run_conns_h_strip : forall cap hevs, run_conns_h cap hevs = run_conns cap (strip_ends hevs).
+Proof. intros. unfold run_conns_h, run_conns. apply conns_h_strip. Qed.
+
+Lemma hstate_after_strip_gen : forall hevs r, fold_left hev_step hevs r = fold_left ev_step (strip_ends hevs) r.
+Proof.
+  induction hevs as [|h t IH]; intros r; [reflexivity|].
+  destruct h as [e|k]; cbn [fold_left strip_ends hev_step]; apply IH.
+Qed.
+
+Lemma hstate_after_strip : forall cap hevs, hstate_after cap hevs = state_after cap (strip_ends hevs).
+Proof. intros. unfold hstate_after, state_after. apply hstate_after_strip_gen. Qed.
+
+(* inserting end events anywhere into a history changes no connection's address *)
+Lemma ends_anywhere : forall cap h1 h2, strip_ends h1 = strip_ends h2 -> run_conns_h cap h1 = run_conns_h cap h2.
+Proof. intros cap h1 h2 H. rewrite !run_conns_h_strip, H. reflexivity. Qed.
